@@ -98,6 +98,12 @@ def run(ctx):
     TWINS = [([SMARTS[0]], [RING[0]]), ([SMARTS[1]], [RING[1]]), ([SMARTS[1]], [RING_DEC[0]]), ([SMARTS[4]], [RING_DEC[1]]),
              ([SMARTS[0], SMARTS[1]], [RING[0], RING_DEC[0]]), ([SMARTS[2], SMARTS[3]], [RING[2], RING[3]])]
     twin_idx = []
+    # a three-atom pattern with an edit on one end only, as SMARTS and as RING text, on seeds that are NOT symmetric along the chain
+    for seeds, a, b in ((['CCCO'], ['[C:1][C:2][C:3]>>[C:1].[C:2][C:3]'], [ASYM[0]]), (['CCOC'], ['[C:1][O:2][C:3]>>[C:1].[O:2][C:3]'], [ASYM[1]]),
+                        (['CC(C)CO'], ['[C:1][C:2][C:3]>>[C:1].[C:2][C:3]'], [ASYM[0]]), (['CCCC=O'], ['[C:1][C:2][C:3]>>[C:1].[C:2][C:3]'], [ASYM[0]])):
+        twin_idx.append((len(jobs), len(jobs) + 1))
+        jobs.append({'seeds': seeds, 'rules': a, 'timeout': 300})
+        jobs.append({'seeds': seeds, 'rules': b, 'timeout': 300})
     for k in range(ctx.n(8, 80)):
         a, b = TWINS[k % len(TWINS)]
         seeds = rng.sample(['CC', 'CCC', 'C=C', 'CC=C', 'CCO', 'CO', 'CCCC', 'CC(C)C'], rng.choice([1, 1, 2]))      # acyclic: see note
